@@ -1,7 +1,11 @@
-"""C10 -- fixes never edit template code (the last line of defence).   Functions under contract:
+"""C10 -- fixes never edit template code.   Functions under contract:
+ the LAST line of defence (this file):
    sqlfluff.core.templaters.base: TemplatedFile.raw_slices_spanning_source_slice, TemplatedFile.source_only_slices
    sqlfluff.core.linter.patch:    generate_source_patches (the filter loop; the patch generator is havocked)
-together with C30's contracts of merge / slicer / builder (imported, re-checked under C30).
+   together with C30's contracts of merge / slicer / builder (imported, re-checked under C30).
+ the FIRST line of defence (contracts/c10_fix.py; bounded parts and the syntactic wiring check in contracts/c10_bounded.py):
+   sqlfluff.core.rules.fix:  LintFix._raw_slices_from_templated_slices, LintFix.get_fix_slices, LintFix.has_template_conflicts
+   sqlfluff.core.rules.base: BaseRule.discard_unsafe_fixes (region: guard + conflict loop)
 Inlined from real source: _log_hints, FixPatch.dedupe_tuple, RawFileSlice.*.
 """
 from pyvc.dsl import contract, external, spec, lemma, implies, inline, ref_class
@@ -9,6 +13,8 @@ from pyvc.ty import INT, BOOL, Text, TList, TSet, TTuple, TOpt, SLICE, TRef
 
 from .types import FixPatch, RawFileSlice, TemplatedFile
 from . import c30 as _c30
+from . import c10_fix as _fix          # the first line of defence (LintFix.has_template_conflicts, discard_unsafe_fixes)
+from .c10_fix import raw_tiled        # noqa: F401  (shared spec: the raw slices tile the source)
 
 PROP = "C10"
 DedupeT = TTuple(TTuple(INT, INT), Text)
@@ -17,15 +23,6 @@ inline("sqlfluff.core.linter.patch:_log_hints")
 
 
 # ------------------------------------------------------------------ specification
-@spec
-def raw_tiled(raw):
-    """the raw slices tile the source in order, starting at 0 (established by TemplatedFile.__init__, C07)"""
-    return (len(raw) > 0 and raw[0].source_idx == 0
-            and all(raw[k].source_idx + len(raw[k].raw) == raw[k + 1].source_idx for k in range(len(raw) - 1))
-            # (redundant; spares an induction) indices are non-decreasing
-            and all(raw[k].source_idx + len(raw[k].raw) <= raw[m].source_idx for k in range(len(raw)) for m in range(k + 1, len(raw))))
-
-
 @spec
 def touches_template(p, raw):
     """edit p overwrites, or inserts strictly inside, some non-literal raw slice"""
@@ -186,10 +183,10 @@ def L_safe_gives_compat(p: FixPatch, raw: TList(RawFileSlice), so: RawFileSlice)
 
 TRUSTED = ["HAVOC contract of _iter_templated_patches (arbitrary patches with start <= stop)",
            "source-category patches (rule JJ01) are exempt by the property's own exception; for them the slicer's "
-           "`compat` precondition is an assumption"]
-NOT_COVERED = ["LintFix.has_template_conflicts, BaseRule.discard_unsafe_fixes, _iter_templated_patches: earlier filters that "
-               "decide which fixes are offered; the theorem shows no change to them can make template text be overwritten",
-               "composition with merge/slicer/builder is by their C30 contracts (safe => compat lemma proved here)"]
+           "`compat` precondition is an assumption"] + _fix.TRUSTED
+NOT_COVERED = ["_iter_templated_patches / BaseSegment._iter_source_fix_patches (per-segment patch generation): havocked; the gate "
+               "theorem shows no change to them can make template text be overwritten",
+               "composition with merge/slicer/builder is by their C30 contracts (safe => compat lemma proved here)"] + _fix.NOT_COVERED
 MUTANTS = [
     ("gate_keeps_uncertain", "sqlfluff/core/linter/patch.py", "                (patch.patch_category, patch.source_slice),\n            )\n            continue", "                (patch.patch_category, patch.source_slice),\n            )\n            filtered_source_patches.append(patch)"),
     ("gate_literal_any", "sqlfluff/core/linter/patch.py", 'if not local_type_list or set(local_type_list) == {"literal"}:', 'if not local_type_list or "literal" in local_type_list:'),
@@ -197,7 +194,7 @@ MUTANTS = [
     ("span_stops_early", "sqlfluff/core/templaters/base.py", "            and self.raw_sliced[raw_slice_idx + slice_span].source_idx\n            < source_slice.stop", "            and self.raw_sliced[raw_slice_idx + slice_span].source_idx\n            < source_slice.stop - 1"),
     ("span_start_strict", "sqlfluff/core/templaters/base.py", "and self.raw_sliced[raw_slice_idx + 1].source_idx <= source_slice.start", "and self.raw_sliced[raw_slice_idx + 1].source_idx < source_slice.start"),
     ("so_slices_drop_block_mid", "sqlfluff/core/templaters/base.py", 'return self.slice_type in ("comment", "block_end", "block_start", "block_mid")', 'return self.slice_type in ("comment", "block_end", "block_start")'),
-]
+] + _fix.MUTANTS
 
 
 # ------------------------------------------------------------------ bounded: template code survives real fixes
@@ -254,4 +251,7 @@ def template_code_survives(tier, seed):
             "samples": samples, "failed": failed}
 
 
-BOUNDED = [template_code_survives]
+from .c10_bounded import first_line_on_real_fixes, discard_on_built_results, wiring  # noqa: E402
+
+BOUNDED = [template_code_survives, first_line_on_real_fixes, discard_on_built_results]
+EXTRA = [wiring]
